@@ -209,6 +209,24 @@ theorem C09_generated_mmap :
     (mmapTable.all fun r => r.action != "missing") = true := by
   decide
 
+set_option maxRecDepth 100000 in
+/-- **the staging state of a `Batch`** (`batchTable`: the methods `Put / Get / Delete / Commit` of `batch.go` walked with the
+batch's own mutex `b.mu` as the tracked lock and `staged / stageIndex / cachedDataSize / committed` as the shared
+fields; `findPendingRecord`, `addPendingRecord`, `flushStaged…` inlined).  A `Batch` has its own `RWMutex` because it may
+be handed to several goroutines: every write of its staging state happens with `b.mu` in W mode, every read in R or W
+mode, no method re-acquires the mutex while holding it, every return releases it.  `C09_lockset` applied to this table:
+no two co-enabled steps of different goroutines sharing one batch access its staging state in conflict. -/
+theorem C09_generated_batch :
+    Disciplined batchTable ∧ NoSelfDeadlock batchTable ∧ ReleasedAtReturn batchTable ∧
+    (batchTable.any fun r => r.action == "write:staged") = true ∧
+    (batchTable.any fun r => r.method == "b.mu:Batch.Delete" && r.action == "write:staged") = true ∧
+    (batchTable.all fun r => r.action != "missing") = true := by
+  decide
+
+/-- not vacuous: a `Delete` that stages under the READ lock (copied from `Get`'s prologue) is rejected -/
+example : ¬ Disciplined [⟨"b.mu:Batch.Delete", 0, "acqR", .R, 1⟩, ⟨"b.mu:Batch.Delete", 1, "read:staged", .R, 1⟩,
+                         ⟨"b.mu:Batch.Delete", 2, "write:staged", .R, 1⟩, ⟨"b.mu:Batch.Delete", 3, "relR", .R, 1⟩] := by decide
+
 /-- not vacuous: the shape before the repair (`Read` remaps without any lock) is rejected -/
 example : ¬ Disciplined [⟨"MMap.Read", 0, "read:virtualSize", .none, 0⟩, ⟨"MMap.Read", 1, "write:endOff", .none, 0⟩,
                          ⟨"MMap.Read", 2, "write:activeMap", .none, 0⟩, ⟨"MMap.Read", 3, "ret", .none, 0⟩] := by decide
